@@ -26,7 +26,7 @@ import fandango.language.grammar.nodes.terminal as TT
 GEN_SPECS = {
     "dep": '<start> ::= <a> "+" <b> "=" <sum>\n<a> ::= <bit>\n<b> ::= <bit>\n<bit> ::= "0" | "1"\n<sum> ::= <bit>+ := add(<a>, <b>)\n\n'
            'def add(a, b):\n    return bin(int(str(a), 2) + int(str(b), 2))[2:]\n',
-    "twice": '<start> ::= <a> ":" <dd>\n<a> ::= <bit> <bit>?\n<bit> ::= "0" | "1"\n<dd> ::= <bit>+ := str(<a>) + str(<a>)\n',
+    "twice": '<start> ::= <a> ":" <dd>\n<a> ::= <bit> | <bit> "0"\n<bit> ::= "0" | "1"\n<dd> ::= <bit>+ := str(<a>) + str(<a>)\n',
     "stub": '<start> ::= <hdr> ":" <body>\n<hdr> ::= <d>+ := gen_hdr()\n<d> ::= "0" | "1"\n<body> ::= "x" | "y"\n\ndef gen_hdr():\n    return "0"\n',
     "nested": '<start> ::= <len> "#" <chk>\n<pay> ::= "p"{1,2}\n<len> ::= <d> := str(len(str(<pay>)))\n<d> ::= "1" | "2" | "3"\n'
               '<chk> ::= <d> := str(int(str(<len>)) + 1)\n',
